@@ -810,6 +810,10 @@ func checkC16(c *CheckCtx) error {
 	c.sample(map[string]any{"source": "MC_Docs cases", "note": scs[0].Note})
 	scs = append(scs, jsonNearMiss(c)...)
 	scs = append(scs, sharedMatcherScenarios(c)...)
+	for _, h := range hugeDoc() {
+		h.Tags = append(h.Tags, "also:C16")
+		scs = append(scs, h)
+	}
 	return c.runSeq(scs)
 }
 
@@ -1076,5 +1080,6 @@ func checkC14(c *CheckCtx) error {
 	}
 	c.sample(map[string]any{"document": jsonCorpus[14], "presentations": []string{respace(jsonCorpus[14])}})
 	scs = append(scs, jsonNearMiss(c)...)
+	scs = append(scs, hugeDoc()...)
 	return c.runSeq(scs)
 }
